@@ -301,6 +301,20 @@ def array_elem(fn, ptr, arrname):
     if b is None or b.op != 'load' or b.ops[0] != ('glob', arrname): return None
     return g.ops[1]
 
+def copies_of(fn, reg):
+    """registers that hold the same value as register `reg`: loads of locals whose only store is a copy of it"""
+    out = {reg}; changed = True
+    while changed:
+        changed = False
+        for x in fn.ins:
+            if x.op == 'store' and x.ops[0][0] == 'reg' and x.ops[0][1] in out:
+                a = fn.def_of(x.ops[1])
+                if a is None or a.op != 'alloca': continue
+                if sum(1 for y in fn.ins if y.op == 'store' and y.ops[1] == x.ops[1]) != 1: continue
+                for y in fn.ins:
+                    if y.op == 'load' and y.ops[0] == x.ops[1] and y.res not in out: out.add(y.res); changed = True
+    return out
+
 class Cases:
     """regions of a bison action switch: blocks dominated by a case label"""
     def __init__(s, prog, fn):
